@@ -261,7 +261,7 @@ PROPS = {
         "theorems": ["Grol.Reg.C05.loop_balanced", "Grol.Reg.C05.nested_loops_balanced", "Grol.Reg.C05.sequence_balanced",
                      "Grol.RegRewrite.modifyR_spec", "Grol.RegRewrite.C05.rewrite_shape", "Grol.RegRewrite.C05.rewrite_shape_nested",
                      "Grol.RegRewrite.C05.rewrite_refuses", "Grol.RegRewrite.C05.useRegister_spec",
-                     "Grol.RegRewrite.C05.read_sim"],
+                     "Grol.RegRewrite.C05.read_sim", "Grol.RegRewrite.sim_arith", "Grol.RegRewrite.C05.simulation_partial"],
         "suites": [["eval", "C05"], "regrewrite"],
         "rule": EVAL_RULE + " C05 statement: per input, output/value/error/panic are identical with registers on and off (both cache settings)."
                 " regrewrite: a case is (registers enabled?, registers in use, candidate names, body); the decisions (eligible, ok, count, register index, kept) and the"
